@@ -72,6 +72,7 @@ KF_Rebind  == "KF:C18.rebind-same-value"
 KF_Twice   == "KF:C18.value-registered-twice"
 KF_Update  == "KF:C18.update-to-bound-value"
 KF_DelSp   == "KF:C18.space-deleted"
+KF_Merge   == "KF:C18.update-merges-specs"
 
 HasSpN(e) == e.op \in {"new_spec", "assign", "del_ref"}
 
@@ -94,11 +95,21 @@ TrigTwice(P, pre, e) ==
 
 \* KF_Update: update_pandas(old, new) where new is already bound in the model:
 \* update_value overwrites _valid_to_refs[id(new)] and forgets those references
+BothHaveSpecs(P, e) == {e.old, e.new} \subseteq {x.v : x \in P.io[e.m]}
 TrigUpdate(P, pre, e) ==
     IF e.op = "update" /\ e.new # e.old /\ e.new \in BoundVals(pre, e.m)
        /\ e.old \in {t.v : t \in pre.M[e.m].v2r}
+       /\ ~BothHaveSpecs(P, e)
     THEN {[m |-> e.m, v |-> e.new, k |-> KF_Update], [m |-> e.m, v |-> e.old, k |-> KF_Update]}
     ELSE {}
+
+\* KF_Merge: update_pandas(old, new) where old AND new each have a spec: the
+\* spec of old takes value new (update_spec_value), so two specs share one
+\* value; iospecs / get_spec / del_ref only ever see the first and the other
+\* one is left in the manager when the value is released
+TrigMerge(P, pre, e) ==
+    IF e.op = "update" /\ e.res = "ok" /\ e.new # e.old /\ BothHaveSpecs(P, e)
+    THEN {[m |-> e.m, v |-> e.new, k |-> KF_Merge]} ELSE {}
 
 \* KF_DelSp: deleting a space does not tell the ReferenceManager: the values
 \* its defined references were bound to keep their registration (and spec)
@@ -125,7 +136,7 @@ Carried(P, e) ==
 \* taints in force while event e is judged / kept afterwards
 TaintNow(P, pre, e) ==
     P.taint \cup Carried(P, e) \cup TrigRebind(P, pre, e) \cup TrigTwice(P, pre, e)
-            \cup TrigUpdate(P, pre, e) \cup TrigDelSp(P, pre, e)
+            \cup TrigUpdate(P, pre, e) \cup TrigDelSp(P, pre, e) \cup TrigMerge(P, pre, e)
 TaintKept(T, post) == {t \in T : ~Clean(post, t.m, t.v)}
 
 \* P2 = state used to judge event e (taints not yet ended); PNext(P2) = state carried on
@@ -213,5 +224,5 @@ Judge(P, pre, e, post) ==
 
 PropLabels == {"C18.SpecsEqBoundValues", "C18.NoOrphanSpec", "C18.LocationsUnique",
                "C18.RejectedLeavesNothing", "C18.SanityChecks", "C18.SavedSpecsRoundTrip"}
-KFLabels   == {KF_Rebind, KF_Twice, KF_Update, KF_DelSp}
+KFLabels   == {KF_Rebind, KF_Twice, KF_Update, KF_DelSp, KF_Merge}
 =============================================================================
